@@ -633,6 +633,14 @@ _KINDS = {"loads": _check_loads, "sequence": _check_sequence, "template": _check
 
 def check(case):
     inp = case["input"]
+    # both sides start from empty module tables: the worker process also serves other families, whose failed loads leave entries in the
+    # real module's tables (harmless: enterStart empties them) that the spec runtime never saw
+    import blackbird.auxiliary as aux
+    aux._VAR.clear()
+    aux._PARAMS.clear()
+    sv, sp = spec_rt.runtime().tables
+    sv.clear()
+    sp.clear()
     with warnings.catch_warnings():
         warnings.simplefilter("ignore")
         return _KINDS[inp["kind"]](inp)
